@@ -25,3 +25,51 @@ package domain
 //@   ensures err == nil ==> member(res, endpoints) && isRoutable(res.Status)
 //@   ensures err != nil ==> noRoutable(endpoints)
 //@   ensures err == nil || res == nil
+
+// ---- ghost record of the latest interactions with the endpoint repository and the health client (C03, C07)
+//@ ghost var updCount int
+//@ ghost var updStatus EndpointStatus
+//@ ghost var updLastChecked int
+//@ ghost var updNext int
+//@ ghost var updFailures int
+//@ ghost var updMult int
+//@ ghost var updURL string
+//@ ghost var updErr error
+//@ ghost var repoAll []*Endpoint
+//@ ghost field spawned bool
+
+//@ interface EndpointRepository.UpdateEndpoint
+//@   requires endpoint != nil
+//@   records updCount = old(updCount) + 1
+//@   records updStatus = endpoint.Status
+//@   records updLastChecked = endpoint.LastChecked
+//@   records updNext = endpoint.NextCheckTime
+//@   records updFailures = endpoint.ConsecutiveFailures
+//@   records updMult = endpoint.BackoffMultiplier
+//@   records updURL = endpoint.URLString
+//@   records updErr = err
+
+//@ interface EndpointRepository.Exists
+//@ interface EndpointRepository.GetAll
+//@   ensures err == nil ==> res == repoAll && allNonNil(res)
+
+//@ func NewHealthCheckError
+//@   property C07
+//@   requires endpoint != nil
+//@   ensures res != nil && fresh(res)
+
+//@ func (e *Endpoint) GetURLString
+//@   property C07 C03
+//@   ensures res == e.URLString
+
+//@ func (e *Endpoint) GetHealthCheckURLString
+//@   property C07 C03
+//@   ensures res == e.HealthCheckURLString
+
+//@ func (s EndpointStatus) String
+//@   property C07 C03
+//@   ensures res == s
+
+//@ func NewEndpointError
+//@   property C07 C03
+//@   ensures res != nil && fresh(res)
